@@ -5,7 +5,7 @@ class C13(Spec):
     prop = "C13"
     drv = "drv_c13"
     harness = "h_c13"
-    required_theorems = ("C13.plugins_order_irrelevant", "C13.fanin_by_index", "C13.verify_all_order_irrelevant",
+    required_theorems = ("C13.plugins_order_irrelevant", "C13.fanin_by_index", "C13.verify_all_order_irrelevant", "C13.verify_worker_count_irrelevant",
                          "C13.delDupKey_spec", "C13.checkKV_order_irrelevant", "C13.merge_order_irrelevant",
                          "C13.findByValue_order_irrelevant")
     quick_timeout = 3600
@@ -17,11 +17,11 @@ class C13(Spec):
                   "Regenerated tie: a go/packages + go/types extractor lists every range-over-map, go statement, multi-way "
                   "select, clock/rand use and package-level cache reachable (static call graph, interface calls resolved by class "
                   "hierarchy, dapp hooks as roots) from procExecTxList / procExecAddBlock / procExecDelBlock / PreExecBlock / "
-                  "ExecBlock in /repo's current source; the list must equal the committed annotated list (99 sites; it also covers writes to package-level variables and to fields of values whose type is reachable from a package-level variable, e.g. the plugin instances in globalPlugins). The "
+                  "ExecBlock in /repo's current source; the list must equal the committed annotated list (101 sites; it also covers writes to package-level variables and to fields of values whose type is reachable from a package-level variable, e.g. the plugin instances in globalPlugins). The "
                   "property predicate itself runs in every check: a generated chain (groups, failing transactions, manage, "
                   "para-titled transactions, >80-transaction blocks) is executed in fresh processes and in processes that first executed ANOTHER chain (own genesis and blocks, fresh databases), with the default plugins, with enableStat and (genesis only) with enableMVCC, with "
                   "GOMAXPROCS 1/2/16 and CPU affinity 1/4/16 and twice per process; receipts, state KV set, state root, "
-                  "transaction roots, the EventAddBlock / EventDelBlock local KV sets of every height including 0 and the persisted local database after genesis and at the end are compared byte for byte.")
+                  "transaction roots, the verdicts (Block.CheckSign, PreExecBlock as peer / own block) on 18 blocks that must be rejected (flipped / missing signature, foreign public key; first / middle / last; single / group member) - which must be ErrSign whatever GOMAXPROCS and CPU count -, the EventAddBlock / EventDelBlock local KV sets of every height including 0 and the persisted local database after genesis and at the end are compared byte for byte.")
     level_note = ("partial by nature: Go's scheduler and map randomisation are not modelled, only enumerated as sites and "
                   "abstracted as permutations; non-determinism inside code the extractor does not load (plugin dapps, database "
                   "backends other than the configured one, cgo) is seen only by the repeated-execution comparison; the worker "
